@@ -1,7 +1,7 @@
 """C05 -- 8-valued logic simulation conservatively predicts timing simulation."""
 import z3
 
-from contracts import logic_sim_c
+from contracts import logic_sim_c, logic_c, wave_c
 from pyvc.verify import verify, Lemmas
 from pyvc.values import SBool
 from pyvc.logic import And, Or, Not, implies, iff
@@ -30,11 +30,13 @@ def act_lemmas():
 
 def run(tier, seed):
     res = PropertyResult('C05', 'other',
-                         'Tier P: per primitive the lemmas L-act (hazard-free constant => the Boolean function is constant over every vector compatible with the constant operands) '
+                         'Tier P: the functions both simulators rest on are re-verified here -- logic.bp8v_* against the 8-valued algebra, the 8-valued loop of LogicSim.c_prop, and _wave_eval stages 1+2 (Q2 final / Q5 initial value also on the overflow path); per primitive the lemmas L-act (hazard-free constant => the Boolean function is constant over every vector compatible with the constant operands) '
                          'and L-8v2v (initial/final components are the 2-valued function), together with Q2/Q5 of _wave_eval (proved in C03) and the 8-valued loop contract (C02), '
                          'carry the per-op step; lifting to whole circuits (and "no transition at all") is a paper induction. Tier B (bounded): the pair (LogicSim(m=8), WaveSim) '
                          'on real runs for 0/1/R/F stimuli with arbitrary times over the option settings of both simulators.')
-    res.report = verify([act_lemmas(), logic_sim_c.xsound_lemmas()], timeout_s=20)
+    bp8 = [t for t in logic_c.bp_targets() if 'bp8v' in t.qualname]
+    res.report = verify([act_lemmas(), logic_sim_c.xsound_lemmas()] + bp8 + logic_sim_c.targets(ms=(8,), callback=(False,)) + wave_c.targets(),
+                        timeout_s=30 if tier == 'quick' else 120)
     res.bounded = [wave_parts.part_c05(tier, seed)]
     res.assumptions = ['stage 4 of _wave_eval (operand abstraction consistent with W(X) => output without finite entry) is not discharged; the circuit-level clause is bounded evidence',
                        'lemmas are over spec.gates/spec.algebra; the LUT constants are tied to the same gate functions in C01']
